@@ -44,6 +44,9 @@ var vfHeaders = map[string]bool{
 // callers: 0 root, 1 admin, 2 user owning the bucket (ACL full control), 3 user without any grant
 const vfCallers = 4
 
+// vfCallerFirst lets a harness that stubs the decision functions drop the caller kinds it cannot distinguish
+var vfCallerFirst = 0
+
 func vfCaller(which int) (auth.Account, bool, auth.ACL) {
 	acct := auth.Account{Access: "caller", Secret: "s", Role: auth.RoleUser}
 	acl := auth.ACL{Owner: "someone"}
@@ -79,7 +82,7 @@ func vfRequest(method string, bucketRoute bool) *fiber.Ctx {
 	ctx := zzvfbe.NewRequest()
 	r := zzvfbe.R
 	r.Method = method
-	acct, isRoot, acl := vfCaller(zzvf.Choice("caller", vfCallers))
+	acct, isRoot, acl := vfCaller(vfCallerFirst + zzvf.Choice("caller", vfCallers-vfCallerFirst))
 	r.Locals["account"] = acct
 	r.Locals["isRoot"] = isRoot
 	r.Locals["rootAccess"] = "root"
